@@ -305,7 +305,7 @@ def bfs(ctx, dim, k, K):
     tier, seed = ctx.tier, ctx.seed
     G = alph.gen_SE(dim, tier, seed)
     if tier == 'quick':
-        G = G[:9]
+        G = alph.subset(G, 10)
     embed, step, check = (embed3, step3, check3) if dim == 3 else (embed2, step2, check2)
     depth = 2 if tier == 'quick' else 3
     gens = []
@@ -323,7 +323,7 @@ def bfs(ctx, dim, k, K):
                 ctx.case(cid, trivial=(gn == 'I|t=0'))
                 check(ctx, cid, dict(dim=dim, g=gn.split('|')[0], t=gn.split('t=')[1], depth=0), st)
     ntr = 0
-    gsub = gens if tier != 'quick' else gens[:6]
+    gsub = gens if tier != 'quick' else [g for g in gens if g[0] in {x[0] for x in alph.subset(G, 6, 3)}]
     for d in range(depth):
         nxt = []
         for sn, st in frontier:
@@ -334,7 +334,7 @@ def bfs(ctx, dim, k, K):
             for mn, g, how in moves:
                 name = '%s.%s' % (sn, mn)
                 cid = 'C04/%dD/bfs/%s' % (dim, name)
-                if not ctx.want(cid):
+                if not ctx.want(cid, walk=True):
                     continue
                 ctx.case(cid)
                 ntr += 1
@@ -420,6 +420,37 @@ def shared(ctx, part, nparts):
                         ref.rpy(r, p, y, order), [(cn, lambda C=C: C.RPY(list(A), unit=u, order=order)) for cn, C in classes])
             compare('phi=%s/th=%s/psi=%s/%s' % (rn, pn, yn, u), 'Eul', dict(unit=u, phi=rn, theta=pn, psi=yn),
                     ref.eul(r, p, y), [(cn, lambda C=C: C.Eul(list(A), unit=u)) for cn, C in classes])
+    # the same constructors with an N x 3 array of angle triples (one value per row), every order and unit
+    rows = [(r, p, y) for (_, r), (_, p), (_, y) in itertools.product(SA[:3], PA[:4], SA[1:3])]
+    for N in (2, 3):
+        for start in range(0, len(rows) - N, 5):
+            i += 1
+            if i % nparts != part:
+                continue
+            sel = rows[start:start + N]
+            for u in ('rad', 'deg'):
+                k = 1.0 if u == 'rad' else 180 / PI
+                A = np.array(sel) * k
+                for cn, C in classes[:2]:
+                    for fn, orders in (('RPY', c01.ORDERS), ('Eul', (None,))):
+                        for order in orders:
+                            cid = 'C04/ctor/%s/%s/Nx3/N=%d/start=%d/%s/%s' % (fn, cn, N, start, u, order)
+                            if not ctx.want(cid):
+                                continue
+                            ctx.case(cid, key=cid)
+                            site = '%s.%s' % (cn, fn)
+                            PP = dict(cls=cn, fn=fn, unit=u, order=str(order), form='Nx3', N=N)
+                            kw = dict(unit=u) if order is None else dict(unit=u, order=order)
+                            ok, o = call(getattr(C, fn), A.copy(), **kw)
+                            if not ok:
+                                ctx.fail(cid, site, 'raises:' + type(o).__name__, PP, '%s(N x 3) raised %r' % (site, o))
+                                continue
+                            if type(o) is not C or len(o.data) != N:
+                                ctx.fail(cid, site, 'mismatch', dict(PP, what='count'), 'expected %d values, got %s' % (N, len(getattr(o, 'data', []))))
+                                continue
+                            for j, (r, p, y) in enumerate(sel):
+                                want = ref.eul(r, p, y) if order is None else ref.rpy(r, p, y, order)
+                                cmp(ctx, cid, site, dict(PP, j=j), np.asarray(o.data[j])[:3, :3], want, 1, '%s(N x 3)[%d]' % (site, j))
     # AngVec / EulerVec / Exp
     AX = alph.axes(tier, seed)
     for tn, th in alph.theta_alphabet(tier, seed):
